@@ -12,7 +12,7 @@ the spelling of local variables:
 import ast
 
 from .cfg import eval_order
-from .flow import get_flow, mentions, show, strip_sites, subterms
+from .flow import get_flow, mentions, mk_phi, show, strip_sites, subterms
 from .model import AnalysisError, src_of
 
 DUNDERS_CHECKER = ("__preconditions__", "__postcondition_snapshots__", "__postconditions__")
@@ -182,7 +182,7 @@ class Summaries:
         elif len(ts) == 1:
             t = ts[0]
         else:
-            t = ("phi", tuple(sorted(ts, key=repr)))
+            t = mk_phi(ts)
         self._ret[fi.qual] = t
         return t
 
@@ -223,7 +223,7 @@ class Summaries:
                 y = self.expand(x, depth + 1)
                 if y not in ts:
                     ts.append(y)
-            return ts[0] if len(ts) == 1 else ("phi", tuple(sorted(ts, key=repr)))
+            return mk_phi(ts)
         if t[0] == "op":
             return ("op", t[1], tuple(self.expand(x, depth + 1) for x in t[2]))
         return t
